@@ -404,6 +404,7 @@ func ruleDecodeWidth(c *Ctx, rule string) {
 		tagName[constInt(p.Obj("boltz", n))] = n
 	}
 	fns := c.prodFuncs("boltz")
+	prepend := p.Func("boltz", "PrependFieldType")
 	// writer rows
 	var writers []wrow
 	for _, fn := range fns {
@@ -467,6 +468,52 @@ func ruleDecodeWidth(c *Ctx, rule string) {
 				}
 				if row.tag >= 0 && tagName[row.tag] != "" && arr.Len() >= 2 {
 					writers = append(writers, row)
+					continue
+				}
+				// second form: the array holds the payload only and the tag is put in front of it by
+				// PrependFieldType(tag, payload[:]) — payload offset in the stored value is 1, width the
+				// whole array
+				if row.tag < 0 {
+					prow := wrow{fn: fn, tag: -1, width: arr.Len(), codec: "", order: "", offset: 1}
+					for _, r := range *al.Referrers() {
+						switch x := r.(type) {
+						case *ssa.IndexAddr:
+							// payload[0] = 1
+							if ic, isK := x.Index.(*ssa.Const); isK && ic.Value != nil {
+								for _, r2 := range *x.Referrers() {
+									if _, isSt := r2.(*ssa.Store); isSt && prow.codec == "" {
+										idx, _ := constant.Int64Val(ic.Value)
+										prow.codec, prow.offset = "byte", idx+1
+									}
+								}
+							}
+						case *ssa.Slice:
+							lo := int64(0)
+							if lc, isK := x.Low.(*ssa.Const); isK && lc.Value != nil {
+								lo, _ = constant.Int64Val(lc.Value)
+							}
+							for _, r2 := range *x.Referrers() {
+								if name, order, _, isCodec := codecCall(r2); isCodec {
+									prow.codec, prow.order, prow.offset = name, order, lo+1
+								}
+								if call, isCall := r2.(*ssa.Call); isCall && isCallTo(call, prepend) && len(call.Call.Args) == 2 && call.Call.Args[1] == ssa.Value(x) && lo == 0 && x.High == nil {
+									v := call.Call.Args[0]
+									if cv, isCv := v.(*ssa.Convert); isCv {
+										v = cv.X
+									}
+									if k, isK := v.(*ssa.Const); isK && k.Value != nil {
+										prow.tag, _ = constant.Int64Val(k.Value)
+									}
+								}
+							}
+						}
+					}
+					if prow.tag >= 0 && tagName[prow.tag] != "" && arr.Len() >= 1 {
+						if prow.codec == "" && arr.Len() == 1 {
+							prow.codec, prow.offset = "byte", 1 // a one-byte payload left at its zero value on some path
+						}
+						writers = append(writers, prow)
+					}
 				}
 			}
 		}
